@@ -7,9 +7,9 @@ SID=$1; shift
 V=/verif
 R=/tmp/seedrepo_$SID
 rm -rf $R; mkdir -p $R /tmp/seed_eval/$SID
-rsync -a --exclude /target --exclude /.git /repo/ $R/
+rsync -a --exclude /target --exclude /.git ${SEED_BASE:-/repo}/ $R/
 if ! (cd $R && patch -p1 -s --no-backup-if-mismatch < $V/seeded/$SID/patch.diff > /tmp/seed_eval/$SID/apply.log 2>&1); then
-  if [ -f $V/seeded/$SID/patch_rebased.diff ] && (cd $R && rsync -a --exclude /target --exclude /.git /repo/ $R/ && patch -p1 -s --no-backup-if-mismatch < $V/seeded/$SID/patch_rebased.diff); then :; else echo "$SID APPLY-FAILED"; rm -rf $R; exit 3; fi
+  if [ -f $V/seeded/$SID/patch_rebased.diff ] && (cd $R && rsync -a --exclude /target --exclude /.git ${SEED_BASE:-/repo}/ $R/ && patch -p1 -s --no-backup-if-mismatch < $V/seeded/$SID/patch_rebased.diff); then :; else echo "$SID APPLY-FAILED"; rm -rf $R; exit 3; fi
 fi
 for P in "$@"; do
   TIER=${TIER:-quick}
